@@ -75,7 +75,7 @@ type Path struct {
 	calls      map[*ssa.Function]int
 	forks      [][]int64
 	res        *PathResult
-	stubs map[string]Value
+	stubs      map[string]Value
 	known      map[string]*smt.Term // active known-finding regions: id -> predicate
 	catchDepth int
 	depth      int
@@ -89,6 +89,7 @@ type Path struct {
 	pinMemo    map[*smt.Term]*smt.Term
 	pinMemoGen int
 	fnStack    []*ssa.Function
+	intMode    bool
 	merged     int
 	params     map[string]int64
 }
